@@ -29,9 +29,12 @@ FailedSeq(e) ==
   \cup (IF ~(\A p \in 1..N(e) : e.local[p] = 0 => e.hub2[p] = e.hub[p]) \/ e.alien # <<>> \/ Len(e.conf2) # Len(e.conf) THEN {"other-hub-path-touched"} ELSE {})
   \cup (IF e.exit = 0 /\ ~(e.second.exit = 0 /\ e.second.sent \in {0, -1} /\ e.second.conflicts \in {0, -1} /\ e.second.unchanged) THEN {"second-run-sends"} ELSE {})
 
+\* e.clash[p]: A's file p is a file where B committed a directory during the window, or lies under a path where B committed a file
+Retrievable(e, p) == e.hub2[p] = e.localA[p] \/ <<p, e.localA[p]>> \in Confs(e)
 FailedRace(e) ==
      (IF e.exitA # 0 THEN {} ELSE {"cas-loss-not-reported"})
-  \cup (IF \A p \in 1..N(e) : e.localA[p] # 0 => (e.hub2[p] = e.localA[p] \/ <<p, e.localA[p]>> \in Confs(e)) THEN {} ELSE {"local-file-not-retrievable"})
+  \cup (IF \A p \in 1..N(e) : (e.localA[p] # 0 /\ ~e.clash[p]) => Retrievable(e, p) THEN {} ELSE {"local-file-not-retrievable"})
+  \cup (IF \A p \in 1..N(e) : (e.localA[p] # 0 /\ e.clash[p]) => Retrievable(e, p) THEN {} ELSE {"clashing-file-not-retrievable"})
   \cup (IF \A p \in 1..N(e) : (e.localB[p] # 0 /\ e.localB[p] # e.hub[p]) => e.hub2[p] = e.localB[p] THEN {} ELSE {"other-clients-commit-overwritten"})
   \cup (IF e.exitB = 0 THEN {} ELSE {"undisturbed-client-failed"})
 
